@@ -36,7 +36,8 @@ EXTERNAL_RESULTS = {
     'list': ks('List'), 'sorted': ks('List'), 'reversed': ks('List'),
     'tuple': ks('Tuple'), 'zip': ks('List'), 'map': ks('List'),
     'enumerate': ks('List'), 'range': ks('List'), 'filter': ks('List'),
-    'keys': ks('List'), 'values': ks('List'), 'items': ks('List'),
+    'keys': ks('DictView'), 'values': ks('DictView'),
+    'items': ks('DictView'),
     'str': ks('Str'), 'format': ks('Str'), 'join': ks(U), 'repr': ks('Str'),
     'bytes': ks('Bytes'), 'bytearray': ks('Bytes'), 'tobytes': ks('Bytes'),
     'dumps': ks(U), 'hexlify': ks('Bytes'), 'b64encode': ks('Bytes'),
@@ -221,6 +222,9 @@ class Kinds:
 
     def eval_call(self, x: ast.Call, ctx: Ctx, env, frame) -> KS:
         e = self.e
+        ov = getattr(self, 'call_overrides', None)
+        if ov and id(x) in ov:
+            return ov[id(x)]
         res = e.r.resolve_call(x, ctx)
         out = set()
         fn = x.func
@@ -471,9 +475,28 @@ class KindFlow:
                 if q:
                     want.append(self.k.class_kind(q))
 
+            ABC = {
+                'collections.abc.Mapping': ('Dict',),
+                'collections.abc.MutableMapping': ('Dict',),
+                'collections.abc.Sequence': ('List', 'Tuple', 'Str',
+                                             'Bytes'),
+                'collections.abc.MutableSequence': ('List',),
+                'collections.abc.Set': ('Set',),
+                'collections.abc.Iterable': ('List', 'Tuple', 'Str',
+                                             'Bytes', 'Dict', 'Set',
+                                             'DictView', 'Gen'),
+            }
+
             def matches(kind, w):
                 if kind == w:
                     return True
+                if isinstance(w, tuple) and w[0] == 'inst' and w[1] in ABC:
+                    if kind in ABC[w[1]]:
+                        return True
+                    if isinstance(kind, tuple) and kind[0] == 'tuple' and \
+                            'Tuple' in ABC[w[1]]:
+                        return True
+                    return False
                 if isinstance(kind, tuple) and isinstance(w, tuple) and \
                         kind[0] == w[0] and kind[0] in ('exc', 'inst'):
                     return p.is_subclass(kind[1], w[1])
